@@ -14,8 +14,8 @@ pub static DEF: PropDef = PropDef {
     engine: "wfsim conc",
     level: "exploration",
     rule: "one run = T in {2,4,16,64} tasks (real OS threads, one baton) released together, each performing 1-8 steps over {execute filter i on context j, execute value expression, recompile filter i from a clone of its AST and execute, clone / drop scheme and AST, serialise AST} on 1-6 generated filters (regex, wildcard, contains, in {..}, in $list, [*] with any/all, function calls with memoised extra arguments, boolean combinations) and 1-4 contexts (shared through Arc and / or per task), interleaved by the seeded scheduler at every compiled-node entry (SimCompiler) and harness callback; every result is compared with a sequential baseline computed before, and the baseline is recomputed afterwards in another order; optional injected panic in one execution; non-trivial = at least one pre-emption happened while >= 2 tasks were inside an execution; distinct = distinct choice tapes; thorough adds Miri (data races / UB below node granularity) over many interpreter seeds",
-    runs_quick: 30_000,
-    runs_thorough: 1_000_000,
+    runs_quick: 14_000,
+    runs_thorough: 500_000,
     directed: 0,
     env_groups: true,
     run,
